@@ -180,6 +180,35 @@ def result_return_kinds(body):
     return ok_blocks, err_blocks, fwd
 
 
+def ok_producers(body, local=0):
+    """blocks where a non-error value that may become the function's result is produced: `x = Ok(..)`/`Some(..)` aggregates and
+    non-propagating calls, followed backwards through plain moves (`_0 = move r` after an inlined helper) from `local`"""
+    out, seen, work = [], set(), [local]
+    while work:
+        l = work.pop()
+        if l in seen:
+            continue
+        seen.add(l)
+        for kind, bb, j, x in body.defs.get(l, []):
+            if bb not in body.live_blocks():
+                continue
+            if kind == "stmt" and x["s"] == "assign" and not x["lhs"]["p"]:
+                rv = x["rv"]
+                if rv["k"] == "agg":
+                    if rv.get("variant") in ("Err", "None"):
+                        continue
+                    out.append(bb)
+                elif rv["k"] == "use" and op_place(rv["op"]) is not None and not op_place(rv["op"])["p"]:
+                    work.append(op_place(rv["op"])["l"])
+                else:
+                    out.append(bb)
+            elif kind == "call":
+                if (x.get("fn") or "").endswith("FromResidual::from_residual"):
+                    continue
+                out.append(bb)
+    return sorted(set(out))
+
+
 def where(body, bb):
     t = body.term(bb)
     return "%s:%s (%s bb%d)" % (body.file_of(bb), t.get("line"), body.key, bb)
